@@ -8,8 +8,9 @@
 //     all queries named in the statement are compared with the model;
 //  2. differential: the same queries, and IntermediateRoot(true) (the call the block
 //     executor makes), are compared with a fresh AccountDB that executes the history with
-//     all reverted segments deleted; a root mismatch is explained by a leaf-level diff of
-//     the two account tries (and their storage tries).
+//     the mutating calls of all reverted segments deleted (queries stay in place: they are
+//     not "reverted operations"); a root mismatch is explained by a leaf-level diff of the
+//     two account tries (and their storage tries).
 //
 // Every history with a revert is executed twice: once ending in the full observation
 // followed by the root ("warm": the queries have filled the object caches), once ending
@@ -144,7 +145,7 @@ type slice struct {
 
 	m0       *model
 	b        *bfs
-	frontier []item
+	frontier [][]byte
 	done     int // deepest level completely evaluated
 	okeys    []string
 	memo     map[string]*refRes
@@ -369,9 +370,9 @@ func (s *slice) ref(red []Op) *refRes {
 	return r
 }
 
-// walk steps the model through h and computes the history with reverted segments (and the
-// Snapshot/Revert calls themselves) deleted, plus the families of calls that sat in
-// reverted segments.  ok=false if h is not a valid history.
+// walk steps the model through h and computes the reduced history: the mutating calls of
+// reverted segments (and the Snapshot/Revert calls themselves) deleted, everything else in
+// place; plus the families of the deleted calls.  ok=false if h is not a valid history.
 func (s *slice) walk(h []Op) (m *model, red []Op, revFam []string, hasRevert, hasSnap, ok bool) {
 	m = s.m0.clone()
 	var marks []int
@@ -387,10 +388,18 @@ func (s *slice) walk(h []Op) (m *model, red []Op, revFam []string, hasRevert, ha
 			marks = append(marks, len(red))
 		case kRevert:
 			hasRevert = true
+			// only the state-mutating calls of the segment are "reverted operations"; queries made
+			// inside the segment stay where they were (they are not undone by anything, and the
+			// statement does not promise that a query is free of side effects)
+			var kept []Op
 			for _, d := range red[marks[o.V]:] {
-				fam[family[d.K]] = true
+				if d.K == kReadAll || d.K == kReadCommitted {
+					kept = append(kept, d)
+				} else {
+					fam[family[d.K]] = true
+				}
 			}
-			red = red[:marks[o.V]]
+			red = append(red[:marks[o.V]:marks[o.V]], kept...)
 			marks = marks[:o.V]
 		default:
 			red = append(red, o)
@@ -524,13 +533,15 @@ func (s *slice) eval(h []Op) *nodeRes {
 	if len(modelMis) > 0 {
 		s.c.Count("model_mismatch_explained_by_forward_deviation", 1)
 	}
-	if b.root != ref.rootCold {
+	coldDiffers := b.root != ref.rootCold
+	if coldDiffers {
 		fail(s.explainRoot(h, red, modeCold))
 	}
 	if a.root != ref.rootWarm {
 		fail(s.explainRoot(h, red, modeObs))
 	}
-	if s.keep && k.root != ref.rootKeep {
+	if s.keep && k.root != ref.rootKeep && !coldDiffers {
+		// reported only where IntermediateRoot(true) agrees: otherwise it is the same difference twice
 		fail(s.explainRoot(h, red, modeKeep))
 	}
 	return res
@@ -758,6 +769,7 @@ func (b *bfs) visit(idx []byte, own bool) *model {
 	}
 	b.visited[res.key] = struct{}{}
 	if own {
+		c.Count(fmt.Sprintf("histories:%s:len%d", s.name, len(idx)), 1)
 		c.Eval(1)
 		c.Transition(1)
 		c.Trace(1)
@@ -835,11 +847,6 @@ func (b *bfs) children(idx []byte, m *model, f func(child []byte)) {
 	}
 }
 
-type item struct {
-	idx []byte
-	m   *model
-}
-
 // start walks levels 0..2 of the slice.  Levels 0 and 1 are walked by every worker (needed
 // to generate the shards) and counted by one; the level-2 subtrees are the shards.
 func (s *slice) start(c *fw.Ctx, caseIdx *int64) {
@@ -860,7 +867,7 @@ func (s *slice) start(c *fw.Ctx, caseIdx *int64) {
 				}
 				c.Count("level2_shards_owned", 1)
 				if m2 := b.visit(l2, true); m2 != nil {
-					s.frontier = append(s.frontier, item{l2, m2})
+					s.frontier = append(s.frontier, l2)
 				}
 			})
 		})
@@ -871,14 +878,15 @@ func (s *slice) start(c *fw.Ctx, caseIdx *int64) {
 // step evaluates the next level of the slice (all one-call extensions of the frontier).
 func (s *slice) step() {
 	b := s.b
-	var next []item
-	for _, it := range s.frontier {
+	var next [][]byte
+	for _, idx := range s.frontier {
 		if b.stop {
 			return
 		}
-		b.children(it.idx, it.m, func(ch []byte) {
-			if m := b.visit(ch, true); m != nil {
-				next = append(next, item{ch, m})
+		m, _, _, _, _, _ := s.walk(b.hist(idx)) // the model after the history (not kept in the frontier: memory)
+		b.children(idx, m, func(ch []byte) {
+			if b.visit(ch, true) != nil {
+				next = append(next, ch)
 			}
 		})
 	}
